@@ -145,45 +145,40 @@ func (u *PsipURI) Truncate() {
 // point inside "newpos" (the uri start offset will become newpos.Offs).
 func (u *PsipURI) AdjustOffs(newpos PField) bool {
 	offs := newpos.Offs // new start
-	end := offs + newpos.Len
-	if (u.Scheme.Len + u.User.Len + u.Pass.Len + u.Host.Len + u.Port.Len +
-		u.Params.Len + u.Headers.Len) > newpos.Len {
+	start := u.Scheme.Offs
+	// end of the last component present (includes the delimiters between
+	// the components and present, but empty, trailing components)
+	last := start + u.Scheme.Len
+	for _, f := range [...]PField{u.User, u.Pass, u.Host, u.Port,
+		u.Params, u.Headers} {
+		if f.Offs != 0 && f.Offs+f.Len > last {
+			last = f.Offs + f.Len
+		}
+	}
+	if last-start > newpos.Len {
 		if DBGon() {
-			DBG("AdjustOffs: %d > %d\n",
-				u.Scheme.Len+u.User.Len+u.Pass.Len+u.Host.Len+u.Port.Len+
-					u.Params.Len+u.Headers.Len, newpos.Len)
+			DBG("AdjustOffs: %d > %d\n", last-start, newpos.Len)
 		}
 		return false
 	}
-	start := u.Scheme.Offs
-	last := offs
 	u.Scheme.Offs = offs
 	if u.User.Offs != 0 {
 		u.User.Offs = u.User.Offs - start + offs
-		last = u.User.Offs + u.User.Len
 	}
 	if u.Pass.Offs != 0 {
 		u.Pass.Offs = u.Pass.Offs - start + offs
-		last = u.Pass.Offs + u.Pass.Len
 	}
 	if u.Host.Offs != 0 {
 		u.Host.Offs = u.Host.Offs - start + offs
-		last = u.Host.Offs + u.Host.Len
 	}
 	if u.Port.Offs != 0 {
 		u.Port.Offs = u.Port.Offs - start + offs
-		last = u.Port.Offs + u.Port.Len
 	}
 	if u.Params.Offs != 0 {
 		u.Params.Offs = u.Params.Offs - start + offs
-		last = u.Params.Offs + u.Params.Len
 	}
 	if u.Headers.Offs != 0 {
 		u.Headers.Offs = u.Headers.Offs - start + offs
-		last = u.Headers.Offs + u.Headers.Len
-	}
-	if last > end {
-		panic("PsipURI.AdjustOffs: offset past end")
 	}
 	return true
 }
